@@ -122,19 +122,33 @@ def rule_evaluations_are_dykstra_outputs(eng, rep, rule="C09-1.every-evaluated-p
                 rep.bad(rule, "x handed to objfun [%r]" % c, "not-a-dykstra-output|%s" % (x.why or "never projected")[:80],
                         "with projections an evaluated point is not a direct Dykstra output: %s" % (x.why or "never projected"))
     rep.require_count(rule, "distinct evaluation-point provenances with projections", n, 2)
-    # the producer's projection branch
-    for fid in ("model.Model.as_absolute_coordinates", "model.Model.xpt"):
+    # the producer's projection branch (a producer may delegate to another producer: `return self.as_absolute_coordinates(...)`)
+    producers = ("model.Model.as_absolute_coordinates", "model.Model.xpt")
+    direct = {}
+    for fid in producers:
         fi = eng.fn(fid)
-        cfg = eng.cfg(fi)
-        found = False
+        direct[fid] = []
         for r in eng.prog.own_nodes(fi):
-            if isinstance(r, ast.Return) and isinstance(r.value, ast.Call) and any(t.fid == "util.dykstra" for t in eng.res.calls[id(r.value)].targets):
+            if isinstance(r, ast.Return) and isinstance(r.value, ast.Call):
+                tf = set(t.fid for t in eng.res.calls[id(r.value)].targets)
+                if "util.dykstra" in tf:
+                    direct[fid].append(("dykstra", r))
+                elif tf & (set(producers) - {fid}):
+                    direct[fid].append(("delegates:%s" % sorted(tf & set(producers))[0], r))
+    for fid in producers:
+        fi = eng.fn(fid)
+        found = False
+        for (kind, r) in direct[fid]:
+            if kind == "dykstra":
                 found = True
                 a0 = r.value.args[0] if r.value.args else None
                 if a0 is not None and "projections" in mentions(a0):
                     rep.ok(rule, eng.where(fi, r), "projection branch returns dykstra(self.projections, ...) itself")
                 else:
                     rep.bad(rule, eng.where(fi, r), "%s|dykstra-over-other-list" % fid, "dykstra is not run over the solver's projection list")
+            elif any(k == "dykstra" for (k, _r) in direct[kind.split(":", 1)[1]]):
+                found = True
+                rep.ok(rule, eng.where(fi, r), "returns the result of %s, whose projection branch returns the dykstra(...) result itself" % kind.split(":", 1)[1])
         if not found:
             rep.bad(rule, eng.where(fi), "%s|no-dykstra-branch" % fid, "no branch returns a dykstra(...) result")
 
